@@ -101,7 +101,7 @@ impl HttpRangeRequest {
                 RequestState::Stream(stream) => match ready!(stream.poll_next_unpin(cx)) {
                     Some(Ok(item)) => {
                         self.offset += item.len() as u64;
-                        self.size -= item.len() as u64;
+                        self.size = self.size.saturating_sub(item.len() as u64);
                         return Poll::Ready(Some(Ok(item)));
                     }
                     Some(Err(err)) => return Poll::Ready(Some(Err(HttpReaderError::from(err)))),
